@@ -126,6 +126,15 @@ Lemma eval_pairs_np cx fuel en ps :
   forallb (fun p => wf_expr (snd p)) ps = true -> eval_pairs cx fuel en ps <> Panic.
 Proof. apply expr_np. Qed.
 
+Lemma bind_args_np cx f ln en ps : forall ne,
+  forallb (fun p => wf_expr (snd p)) ps = true -> bind_args cx f ln en ps ne <> Panic.
+Proof.
+  induction ps as [|[k x] ps IH]; intros ne Hwf; cbn [bind_args]; [discriminate|].
+  cbn [forallb snd] in Hwf. apply andb_true_iff in Hwf as [Hx Hps].
+  apply np_bind; [apply eval_expr_np, Hx|]. intros v _.
+  destruct (env_set ne k v); [apply IH, Hps|discriminate].
+Qed.
+
 (* ---- statements *)
 Definition wf_clause (s : stmt) : bool := match s with SNull => true | _ => wf_stmt s end.
 
@@ -198,7 +207,7 @@ Proof.
       apply np_bind.
       { destruct arg as [a|]; [|discriminate].
         destruct a; try discriminate.
-        apply np_bind; [apply eval_pairs_np; rewrite forallb_asort; exact Hwf|discriminate]. }
+        apply bind_args_np. rewrite forallb_asort. exact Hwf. }
       intros en1 _. apply np_bind; [apply IHp, Hwf0|discriminate].
     + destruct body as [b|]; [|discriminate].
       apply np_bind; [apply IHb, Hwf|discriminate].
